@@ -80,10 +80,16 @@ def snapshot(obj: Any = undefined) -> Any:
     if module is not None and module.__file__ is not None:
         state().files_with_snapshots.add(module.__file__)
 
-    key = id(frame.f_code), frame.f_lasti
+    node = expr.node
+
+    if node is None:
+        key: Any = (id(frame.f_code), frame.f_lasti)
+    else:
+        # the same call can exist more than once in the bytecode
+        # (the code of a finally block is duplicated for the exception path)
+        key = id(node)
 
     if key not in state().snapshots:
-        node = expr.node
         if node is None:
             # we can run without knowing of the calling expression but we will not be able to fix code
             state().snapshots[key] = SnapshotReference(obj, None, context)
